@@ -179,7 +179,8 @@ def judge_cluster(case):
 def cmif_case(draw):
     n = draw(st.integers(2, 6))
     return {"n": n, "nf": draw(st.integers(8, 300)), "nSv": draw(st.one_of(st.just("all"), st.integers(1, n - 1))), "fs": draw(st.sampled_from([1.0, 100.0, 37.0])),
-            "seed": draw(st.integers(0, 2**32 - 1)), "freqlim": draw(st.one_of(st.none(), st.sampled_from([[0.1, 0.4], [0.25, 0.45], [0.0, 0.1], [0.3, 0.5]]))), "via_class": draw(st.booleans())}
+            "seed": draw(st.integers(0, 2**32 - 1)), "freqlim": draw(st.one_of(st.none(), st.sampled_from([[0.1, 0.4], [0.25, 0.45], [0.0, 0.1], [0.3, 0.5]]))), "via_class": draw(st.booleans()),
+            "range": draw(st.sampled_from([0, 0, 8, 16, 30])), "level": draw(st.sampled_from([1.0, 1.0, 1e-12, 1e9]))}  # decades between consecutive singular values; overall level
 
 
 def judge_cmif(case):
@@ -188,6 +189,11 @@ def judge_cmif(case):
     n, nf = case["n"], case["nf"]
     freq = np.arange(nf) * case["fs"] / 2 / (nf - 1)
     sv = np.sort(rng.uniform(0.01, 10, size=(n, nf)) * (1 + 5 * np.exp(-((np.arange(nf) - nf / 3) ** 2) / 20))[None, :], axis=0)[::-1]
+    if case.get("range"):
+        # a clean record analysed with many channels: each further singular value some decades below the previous one
+        sv = sv * (10.0 ** (-float(case["range"]) * np.arange(n)))[:, None]
+        j.tag("wide-dynamic-range")
+    sv = sv * case.get("level", 1.0)
     S_val = np.zeros((n, n, nf))
     for k in range(n):
         S_val[k, k, :] = sv[k]
@@ -216,7 +222,7 @@ def judge_cmif(case):
         for ln in lines:
             j.check(np.array_equal(np.asarray(ln.get_xdata(), dtype=float), freq), "cmif-xdata", "a curve is not drawn over the frequency grid")
             y = np.asarray(ln.get_ydata(), dtype=float)
-            hit = [k for k in unmatched if np.allclose(y, exp[k], rtol=1e-12, atol=1e-12)]
+            hit = [k for k in unmatched if np.allclose(y, exp[k], rtol=1e-12, atol=1e-9)]
             if j.check(bool(hit), "cmif-ydata", lambda: f"a curve is not 10*log10(S_val[k,k,:]/max S_val[0,0,:]) for any remaining k; first values {y[:3].tolist()} vs k=0: {exp[0][:3].tolist()}"):
                 unmatched.remove(hit[0])
     plt.close("all")
